@@ -75,7 +75,7 @@ CHECKS = {
     "C19": dict(
         cat="exploration", ref="4/C19",
         text="Every quadruple of distinct, mutually non-prefixing delimiter strings of length 1-2 over {< > [ ]} (quick, 8 templates) / {< > [ ] $ \\} (thorough, 2.1 M quadruples x 20 templates) is installed with Engine.Delims on a fresh engine, the template is re-spelled with it, and output / error line / error cause must equal those of the default spelling on a default engine; templates cover hyphens on objects, block, clause and end tags, raw and comment blocks, default-delimiter text that must become ordinary text, failing lines and unterminated blocks. Every subset of positions left empty must behave as the default for that position.",
-        note="Lengths 3-4 only through a pattern family (not exhaustive). Templates avoid the delimiter alphabet outside delimiters. Errors compared by line number and cause text.",
+        note="Lengths 3-4 only through a pattern family (not exhaustive). One open known finding (known_findings.json, DESIGN.md 9.3): with a tag closer that begins with a hyphen, an argument-less tag written with a right trim marker is not closed at its closer. Templates avoid the delimiter alphabet outside delimiters. Errors compared by line number and cause text.",
         tech="exhaustive configuration enumeration (delimiter quadruples) x programs with a differential oracle against the default configuration"),
     "C20": dict(
         cat="fault_enumeration", ref="4/C20",
@@ -142,7 +142,7 @@ def main():
                 "evidence_file": f"evidence/{i}.json",
                 "replay_cmd_template": f"./check {i} --replay {{path}}",
                 "engine": "mc",
-                "level_claimed": {"category": c["cat"], "text": c["text"] + " Families added while hardening the check against nine rounds of seeded changes (DESIGN.md 9.6) are enumerated the same way; the evidence file lists every family with its case count.", "design_ref": c["ref"]},
+                "level_claimed": {"category": c["cat"], "text": c["text"] + " Families added while hardening the check against eleven rounds of seeded changes (DESIGN.md 9.6) are enumerated the same way; the evidence file lists every family with its case count.", "design_ref": c["ref"]},
                 "level_note": c["note"],
                 "technique": c["tech"],
             })
